@@ -42,6 +42,7 @@ class Boom(Exception):
 def execute(case, prefix, seed):
     ch = grid.Chooser(prefix)
     g = grid.Grid(3, chooser=ch, fault_kinds=tuple(case.get("fault_kinds", ())), client_kw=dict(k=2, n=3, happy=2))
+    g.sched.batch = bool(case.get("batch"))     # turn granularity, see grid.Sched.batch
     viol, obs = [], {}
     log = []
     counter = [0]
@@ -273,6 +274,8 @@ def run(tier, seed):
     dcases = [{"kind": "dir", "ops": list(ops)} for ops in itertools.product(DIR_OPS, repeat=r)]
     d = 1 if tier == "quick" else 2
     res = grid.split_tasks(common.pmap, chunk, fcases + dcases, (seed,), d, 0)
+    # several answers per reactor turn (grid.Sched.batch)
+    res.merge(grid.split_tasks(common.pmap, chunk, [dict(c, batch=True) for c in fcases + dcases], (seed,), d - 1, 0))
     sel = [dict(c, fault_kinds=["error", "disconnect"]) for c in fcases[:: (3 if tier == "quick" else 5)]]
     res.merge(grid.split_tasks(common.pmap, chunk, sel, (seed,), 0, 1))
     # contention: a server refuses a test-and-set write as if another writer had been there first, which
@@ -286,7 +289,7 @@ def run(tier, seed):
         "distinct_result_vectors": len(res.distinct),
         "deviation_bound_completed": d,
         "fault_bound_completed": 1,
-        "rule": "all %d file and %d directory operation sequences of length %d at d<=%d; %d file sequences at f<=1 (error / disconnect on any call)" % (len(fcases), len(dcases), r, d, len(sel)),
+        "rule": "all %d file and %d directory operation sequences of length %d at d<=%d (and at d<=%d with several answers per reactor turn); %d file sequences at f<=1 (error / disconnect on any call)" % (len(fcases), len(dcases), r, d, d - 1, len(sel)),
     }
     return res, cov
 
